@@ -64,6 +64,43 @@ def run(ctx):
             return getattr(obj, 'target_metamer', None)
         return None
 
+    # ---- a preallocated target buffer refilled IN PLACE between calls (target.copy_(next_frame)): same object, new contents.  Unpadded sizes and inputs
+    # that need no colour conversion (single channel / YCrCb) reach the loss object as the caller's own tensor.
+    for cls_b, ctor, chans, kw_b in (('MetamericLoss/grey_buffer', lambda: P.MetamericLoss(n_pyramid_levels=2, n_orientations=2), 1, {}),
+                                     ('MetamericLoss/ycrcb_buffer', lambda: P.MetamericLoss(n_pyramid_levels=2, n_orientations=2), 3, {'image_colorspace': 'YCrCb'}),
+                                     ('MetamericLoss/rgb_buffer', lambda: P.MetamericLoss(n_pyramid_levels=2, n_orientations=2), 3, {}),
+                                     ('MetamerMSELoss/rgb_buffer', lambda: P.MetamerMSELoss(n_pyramid_levels=2, n_orientations=2), 3, {}),
+                                     ('BlurLoss/grey_buffer', lambda: P.BlurLoss(blur_source=True), 1, {}),
+                                     ('BlurLoss/rgb_buffer', lambda: P.BlurLoss(blur_source=True), 3, {})):
+        for size_b in ((32, 32), (32, 48)):
+            gb = torch.Generator().manual_seed(ctx.seed * 7 + size_b[1] + chans)
+            frames = [torch.rand(1, chans, *size_b, generator=gb) for _ in range(3)]
+            image_b = torch.rand(1, chans, *size_b, generator=gb)
+            gaze_b = [0.4, 0.6]
+            ctx.case((cls_b, size_b), True)
+            ctx.count('target_buffer_refilled_in_place/' + cls_b)
+            ctx.traces += 1
+            try:
+                obj = ctor()
+                buf = frames[0].clone()
+                got = []
+                for fr in frames:
+                    buf.copy_(fr)
+                    got.append(float(obj(image_b, buf, gaze=gaze_b, **kw_b)))
+                buf.copy_(image_b)
+                at_identity = float(obj(image_b, buf, gaze=gaze_b, **kw_b))
+                want = [float(ctor()(image_b, fr.clone(), gaze=gaze_b, **kw_b)) for fr in frames]
+                want_identity = float(ctor()(image_b, image_b.clone(), gaze=gaze_b, **kw_b))
+            except Exception as e:
+                ctx.note('%s with a target buffer raised %r' % (cls_b, e))
+                continue
+            for i, (a, b) in enumerate(zip(got + [at_identity], want + [want_identity])):
+                if not (abs(a - b) <= 1e-5 * max(1.0, abs(b))):
+                    ctx.violation('%s: with ONE target tensor refilled in place between calls, call %d returns %.8g, a fresh object returns %.8g for the same '
+                                  'image, target contents and gaze (size %s)' % (cls_b, i, a, b, list(size_b)),
+                                  {'class': cls_b, 'size': list(size_b), 'call': i}, {'class': cls_b.split('/')[0], 'what': 'history', 'target_buffer': True})
+                    break
+
     nseq = ctx.n(3, 20)
     for cls in ('MetamericLoss', 'MetamericLoss/radial_weight', 'MetamericLoss/fullres_l0', 'MetamericLoss/no_foveal_l2', 'MetamerMSELoss',
                 'BlurLoss', 'BlurLoss/no_source_blur', 'MetamericLossUniform'):
